@@ -114,6 +114,28 @@ def check_exit(eng: Engine, contract: Contract, kind, st: State, val, self_ref, 
             eng.oblige(st.fork(), f(Ctx(eng, st, self_ref, args)), f"inv:{name}:{'raise' if kind == RAISE else 'exit'}", "invariant")
 
 
+def witness_obligations(eng: Engine, contract: Contract, st: State, self_ref, args):
+    """Vacuity guard for quantified preconditions: every contract witness (a concrete pre-state written in
+    the sidecar) must satisfy the representation invariant and the requires clauses (ground => decidable)."""
+    from .concretize import atoms_distinct, from_py
+    for wi, w in enumerate(contract.witnesses):
+        eqs = []
+        for name, pyv in w.get("args", {}).items():
+            v = args[name]
+            eqs.append(v.term == from_py(pyv, v.ty))
+        for path, pyv in w.get("fields", {}).items():
+            ref = self_ref
+            parts = path.split(".")
+            for p in parts[:-1]:
+                ref = eng.heap_read(st, ref, p)
+            v = eng.heap_read(st, ref, parts[-1])
+            eqs.append(v.term == from_py(pyv, v.ty))
+        ob = Obligation(name=f"{eng.cur_prefix}/witness{wi}:satisfies-precondition", kind="cover",
+                        pc=list(st.pc) + eqs + atoms_distinct(), goal=z3.BoolVal(True), function=contract.key, expect_sat=True)
+        ob.extra["witness"] = True
+        eng.obligations.append(ob)
+
+
 def verify_function(src: Source, reg: Registry, contract: Contract, prefix: str, step_hooks=None,
                     z3_timeout=None, solve=True) -> FunctionReport:
     rep = FunctionReport(contract.key)
@@ -149,6 +171,7 @@ def verify_function(src: Source, reg: Registry, contract: Contract, prefix: str,
         cover = Obligation(name=f"{eng.cur_prefix}/cover:requires", kind="cover", pc=list(st.pc), goal=z3.BoolVal(True),
                            function=contract.key, expect_sat=True)
         eng.obligations.append(cover)
+        witness_obligations(eng, contract, st, self_ref, args)
         exits = eng.exec_block(fi.node.body, st)
         for kind, s, v in exits:
             eng.paths += 1
@@ -181,7 +204,10 @@ def verify_function(src: Source, reg: Registry, contract: Contract, prefix: str,
                 ob.name = f"{ob.name}#p{n}"
         for ob in rep.obligations:
             if ob.kind == "cover":
-                discharge(ob, use_cvc5=False, z3_timeout=2000)
+                discharge(ob, use_cvc5=False, z3_timeout=10000 if ob.extra.get("witness") else 2000)
+                if ob.extra.get("witness") and ob.status != "discharged":
+                    rep.error = f"vacuity guard: witness pre-state of {contract.key} does not satisfy its precondition ({ob.status})"
+                    rep.error_kind = "vacuity"
             else:
                 discharge(ob, z3_timeout=z3_timeout)
             if ob.status == "failed" and ob.model is not None:
